@@ -259,6 +259,12 @@ def c14_2(ctx):
     ex2 = next(s for s in g.succ[g.node_of(l2)] if g.nodes[s].kind == 'branch' and not g.nodes[s].polarity)
     ctx.check(g.dominates(ex2, on), 'closed:image-after-generation', fn.site(opens[0]), 'the image is opened only after every line generated its bytes (and overlaps were checked)',
               'the open is not dominated by the end of the second pass')
+    res_ = resolver(ctx, fn, inline=False)
+    fcl = filter_facts_at(ctx, fn, opens[0], res_)
+    lits = [l for c in fcl for l in c]
+    ctx.check(all(len(c) == 1 for c in fcl) and lits == [('truthy', 'self._generate_binary', True)], 'closed:success-implies-image', fn.site(opens[0]),
+              'when assembly gets this far the image is written whenever a binary was requested (also for a program that emits no bytes)',
+              f'the image is written only when {describe_facts(fcl)}: success can be reported with no image, or with a stale one left in place')
     pp = [n for n, c in calls_to(ctx, fn, {'bespokeasm.assembler.pretty_printer.PrettyPrinterBase.pretty_print'})]
     ok = bool(pp) and all(not g.reaches(on, g.node_of(c)) for c in pp)
     ctx.check(ok, 'closed:pretty-print-before-image', fn.site(pp[0]) if pp else fn.site(), 'pretty printing (which can abort) is rendered before the image is opened', '')
@@ -336,6 +342,13 @@ def c14_3(ctx):
     ok = len(ctor) == 1 and any(len(c) == 1 and next(iter(c))[0] == 'in' and next(iter(c))[1] == 'command_str' and next(iter(c))[-1] is True
                                 for c in facts_at(ctx, il, ctor[0], r1))
     ctx.check(ok, 'error:unrecognised-command', il.site(), 'an instruction line is built only for a known mnemonic', '')
+    # labels are resolved and field widths checked while bytes are generated: that must happen for every byte-producing line
+    from rules.c02 import c02_3, c02_5
+    c02_3(ctx)
+    c02_5(ctx)
+    # an operand the expression lexer cannot tokenise completely must not be accepted with the odd characters dropped
+    from rules.c07 import c07_4
+    c07_4(ctx)
     from rules.c12 import c12_1, c12_3, c12_4
     c12_1(ctx)
     c12_3(ctx)
@@ -429,6 +442,9 @@ RULES = [c14_1, c14_2, c14_3, c14_4, c14_5]
 _E = 'assembler/engine.py'
 _F = 'assembler/line_object/factory.py'
 MUTANTS = [
+    V('c14-no-image-for-empty-program', 'assembler/engine.py', "        if self._generate_binary:\n", "        if self._generate_binary and last_line is not None:\n", 'C14.2'),
+    V('c14-muted-lines-not-generated', 'assembler/engine.py', "            if isinstance(lobj, LineWithBytes):\n                lobj.generate_bytes()", "            if isinstance(lobj, LineWithBytes) and not lobj.is_muted:\n                lobj.generate_bytes()", 'C02.3'),
+    V('c14-muted-instruction-unchecked', 'assembler/line_object/instruction_line.py', '        self._bytes.extend(self._assembled_instruction.get_bytes(', '        if self.is_muted:\n            return\n        self._bytes.extend(self._assembled_instruction.get_bytes(', 'C02.5'),
     V('c14-image-before-pass2', _E, '''        # render any pretty print before the image is written so that a failure leaves no image behind
         pretty_str = None
         if self._enable_pretty_print:
